@@ -1407,7 +1407,7 @@ const BIND_POOL: &[&str] = &[
     "__0", "__1", "__2", "__3", "__sym0", "__sym1", "__lookahead", "__lookbehind", "__tokens", "__result", "__nt", "__start",
     "__end", "__temp0", "v", "e", "__v", "___0", "__start0", "__end0", "__symbols", "__states", "__state", "__token",
 ];
-const CX_POOL: &[&str] = &["cx", "__tokens0", "__cx", "__parser", "__1000", "__tokens", "__lookahead", "__lookbehind", "__input0"];
+const CX_POOL: &[&str] = &["cx", "__tokens0", "__cx", "__parser", "__1000", "__tokens", "__lookahead", "__lookbehind", "__input0", "v", "e", "v", "e", "v"];
 const LT_POOL: &[&str] = &["cx", "__a", "a", "ast", "__input", "__1"];
 
 /// C25: consistently rename nonterminals, macro parameters, bindings, the
